@@ -4,7 +4,7 @@
     evict the existing entry before the oversize test; does it drop a stale weak reference);
     every statement holds for all values of them unless it says otherwise. *)
 From Coq Require Import List ZArith String Bool.
-From Memento Require Import Storage.Cache Storage.CacheProofs.
+From Memento Require Import Storage.Cache Storage.CacheProofs Storage.CacheAdmit.
 Import ListNotations.
 Open Scope Z_scope.
 
@@ -90,3 +90,15 @@ Example C06_witness :
 Proof.
   cbv zeta. split; [repeat constructor; cbn; Lia.lia|]. vm_compute. auto.
 Qed.
+
+(** every admission goes through [put], which first releases the entry the key already has. An
+    admission path that skips the release (a batch admission trusting "these calls were just reported
+    absent", with a key that occurs twice) charges one resident entry twice and lists it twice in the
+    LRU list — exactly what the invariant above excludes *)
+Theorem C06_admission_without_release_refuted :
+  let c1 := put {| p_evict_first := true; p_clear_ref := true |} "f/1" 1 0 16 false NoWeak (init 100) in
+  let bad := admit_without_release "f/1" 1 16 c1 in
+  let good := put {| p_evict_first := true; p_clear_ref := true |} "f/1" 1 0 16 false NoWeak c1 in
+  usage bad = 32 /\ total (tbl bad) = 16 /\ lru bad = ["f/1"; "f/1"]%string /\
+  usage good = 16 /\ total (tbl good) = 16 /\ lru good = ["f/1"]%string.
+Proof. exact admit_without_release_refuted. Qed.
